@@ -39,7 +39,7 @@ SPEC = dict(
           "Jan 1, leap year?) classes of year boundaries crossed + distinct mis-pairings + bump outcome classes"),
     assumptions=["packaging decides PEP 440 order of rendered texts; R1 supplies the integer tuples",
                  "a refusal (e.g. week 53, known finding of C02/C05) is not a backwards step"],
-    required=["day_pairs_rendered", "cli_dates", "bump_pairs", "bump_pairs_new_before_old", "mispairings_refused_by_test",
+    required=["day_pairs_rendered", "cli_dates", "bump_pairs", "bump_pairs_new_before_old", "bump_pairs_from_boundary_days", "bump_pin_date_cases", "mispairings_refused_by_test",
               "mispairings_refused_by_loader", "mispairings_shown_non_monotone"],
     anchors=[("v2version", "cal_info"), ("v2version", "is_valid_week_pattern"), ("v2version", "_is_cal_gt"),
              ("config", "_validate_version_with_pattern")],
@@ -175,6 +175,12 @@ def run_bump(ctx, case):
         names = list(ref.parts_in(ast))
         pp = p + ".INC0"
         do = D0 + dt.timedelta(R.randint(0, (D1 - D0).days))
+        if R.random() < 0.35:
+            # boundary days: last / first days of a year (leap years: day 366), of February, of a quarter
+            y = R.choice([2004, 2008, 2024, 2028, 2052, 2096, R.randint(2001, 2099)])
+            m, d_ = R.choice([(12, 31), (12, 31), (12, 30), (1, 1), (1, 2), (2, 28), (3, 1), (3, 31), (6, 30), (9, 30), (10, 1)])
+            do = dt.date(y, m, d_)
+            ctx.counters["bump_pairs_from_boundary_days"] += 1
         r = R.random()
         if r < 0.4:
             dn = do - dt.timedelta(R.choice([1, 2, 7, 31, 200, 400, 3000]))
@@ -189,6 +195,17 @@ def run_bump(ctx, case):
         if projects._week53(names, st):
             continue
         old = ref.render(ast, st) + ".3"
+        if R.random() < 0.15:
+            # --pin-date: the calendar parts stay exactly as they are
+            pres = harness.invoke(["test", old, pp, "--pin-date"])
+            ctx.counters["bump_pin_date_cases"] += 1
+            pa = pres.stdout_value("New Version: ") if pres.exit_code == 0 else None
+            pia = ints(ref.parse_pattern(pp), pa) if pa else None
+            pio = ints(ref.parse_pattern(pp), old)
+            if pia is None or pia[:-1] != pio[:-1]:
+                ctx.violation("other:pin_date_changed_calendar_parts", f"test {old!r} {pp!r} --pin-date: exit "
+                              f"{pres.exit_code} {pa!r} {pres.errors()[-2:]}",
+                              case={"kind": "bump1", "old": old, "pattern": pp, "date": do.isoformat()})
         res = harness.invoke(["test", old, pp, "--date", dn.isoformat()])
         ctx.counters["bump_pairs"] += 1
         if dn < do:
